@@ -527,7 +527,9 @@ theorem readAndDecode_frame (hb : B64RoundTrip) (f : Frame) (fs : List Frame) (c
     ∃ d, readAndDecode (ctxInFrame f co a cu [] rp .dataNeeded) e len [] = d ∧
     d.e.FaultFree ∧ d.e.Safe ∧ ∃ out V', d.res = (if out = [] then Res.again else Res.data out) ∧
       out.length ≤ len ∧ Vf ++ expected (f.afterCo co) fs = out ++ V' ∧
-      Inv (spor { d.c with st := d.st }) d.e.pending V' := by
+      Inv (spor { d.c with st := d.st }) d.e.pending V' ∧
+      d.e.pending.length ≤ e.pending.length ∧
+      (out ≠ [] ∨ d.e.pending.length < e.pending.length ∨ e.Stuck ∨ rest = []) := by
   refine ⟨_, rfl, ?_⟩
   have hok := hv.1
   have hPlt : f.payload.length < 2 ^ 64 := hok.1
@@ -556,11 +558,12 @@ theorem readAndDecode_frame (hb : B64RoundTrip) (f : Frame) (fs : List Frame) (c
     generalize hr : e.read (wpOf f co a + cu.length) (N : Int) = r at hff' hs' hcases
     obtain ⟨o, e'⟩ := r
     simp only at hff' hs' hcases
-    rcases hcases with ⟨ho, hp'⟩ | ⟨t, ht0, htN, htl, ho, hp'⟩
+    rcases hcases with ⟨ho, hp', hstuck⟩ | ⟨t, ht0, htN, htl, ho, hp'⟩
     · -- EAGAIN: state kept
       subst ho
       simp only
-      refine ⟨hff', hs', [], Vf ++ expected (f.afterCo co) fs, by simp, by simp, by simp, ?_⟩
+      refine ⟨hff', hs', [], Vf ++ expected (f.afterCo co) fs, by simp, by simp, by simp, ?_,
+        by rw [hp']; exact Nat.le_refl _, Or.inr (Or.inr (Or.inl hstuck))⟩
       have hsp : spor { ctxInFrame f co a cu [] rp .dataNeeded with
           st := (ctxInFrame f co a cu [] rp .dataNeeded).st } = ctxInFrame f co a cu [] rp .dataNeeded := by
         simp [spor, ctxInFrame]
@@ -583,8 +586,10 @@ theorem readAndDecode_frame (hb : B64RoundTrip) (f : Frame) (fs : List Frame) (c
         decodeChunk_frame hb f fs co a cu rest Vf rp e' len t hv ha hcu hP hrem htr hlen (by omega)
           (by omega) (by omega)
       rw [hd, hde]
-      refine ⟨hff', hs', out, V', h1, h2, h3, ?_⟩
-      rw [hp', hdrop]; exact h4
+      refine ⟨hff', hs', out, V', h1, h2, h3, ?_, ?_, Or.inr (Or.inl ?_)⟩
+      · rw [hp', hdrop]; exact h4
+      · rw [hp']; simp only [List.length_drop]; omega
+      · rw [hp']; simp only [List.length_drop]; omega
   · -- nothing left to read (empty payload / everything already in the buffer)
     simp only [hN0, if_false]
     have hr0 : rest = [] := by
@@ -599,7 +604,7 @@ theorem readAndDecode_frame (hb : B64RoundTrip) (f : Frame) (fs : List Frame) (c
     have hb0 : xorFrom f.mask (a + cu.length) (rest.take 0) = [] := by simp [xorFrom_nil]
     rw [hb0] at hd
     rw [hd, hde]
-    refine ⟨hff, hs, out, V', h1, h2, h3, ?_⟩
+    refine ⟨hff, hs, out, V', h1, h2, h3, ?_, Nat.le_refl _, Or.inr (Or.inr (Or.inr hr0))⟩
     rw [hpend]; simpa using h4
 
 end VncModel.Ws
